@@ -290,6 +290,7 @@ type World struct {
 	Hung        bool     // a handler did not return (the world is abandoned)
 	applyStart  int
 	ResetDay    int // occurrences of the reset-time event so far
+	ClockSec    int // seconds past the last crossing (clock-tick events)
 	applyName   string
 }
 
@@ -502,6 +503,27 @@ func (w *World) StoredTypes() string {
 
 func (w *World) StoredTypeMap() map[int]string { return w.store.types }
 
+// StoredActual is what the real store returns for the numbers 1..S-1 ("seqType," tokens), or the read error.
+func (w *World) StoredActual() string {
+	hi := w.S() - 1
+	if hi < 1 {
+		return ""
+	}
+	var sb strings.Builder
+	err := w.store.MessageStore.IterateMessages(1, hi, func(b []byte) error {
+		if m, e := fixscan.Scan(b); e != nil {
+			sb.WriteString("?,")
+		} else {
+			fmt.Fprintf(&sb, "%d%s,", m.Seq(), m.Type())
+		}
+		return nil
+	})
+	if err != nil {
+		return "ERR:" + err.Error()
+	}
+	return sb.String()
+}
+
 // OurMsg builds a message as if sent by our side earlier (for pre-stored history).
 func (w *World) OurMsg(t string, seq int) []byte {
 	f := []fixscan.Field{{8, w.Cfg.BeginString}, {35, t}, {34, strconv.Itoa(seq)}, {49, OurComp}, {52, fixscan.Stamp(time.Now().Add(-time.Minute))}, {56, PeerComp}}
@@ -697,7 +719,7 @@ func (w *World) Enabled(e *Event) bool {
 		return !sn.Connected && w.dir != ""
 	case "window-closes":
 		return w.Cfg.SessionWindow && sn.SessionTime
-	case "reset-time":
+	case "reset-time", "clock-tick":
 		return w.Cfg.ResetSeqTime
 	case "tick":
 		// time cannot pass a due timer
@@ -835,8 +857,18 @@ func (w *World) applySync(e *Event) {
 		// (each occurrence of the event is the next day's crossing)
 		at := time.Date(2030, 1, 1+w.ResetDay, 12, 0, 0, 0, time.UTC)
 		w.ResetDay++
+		w.ClockSec = 1
 		w.VS.CheckResetTime(at.Add(-time.Second))
 		w.VS.CheckResetTime(at.Add(time.Second))
+	case "clock-tick":
+		// one more tick of the one-second ticker that crosses nothing (the clock stands after the last crossing,
+		// or an hour before the first one)
+		w.ClockSec++
+		at := time.Date(2030, 1, 1, 11, 0, 0, 0, time.UTC)
+		if w.ResetDay > 0 {
+			at = time.Date(2030, 1, w.ResetDay, 12, 0, 0, 0, time.UTC)
+		}
+		w.VS.CheckResetTime(at.Add(time.Duration(w.ClockSec) * time.Second))
 	case "restart":
 		w.Restarts++
 		if err := w.Restart(); err != nil {
@@ -963,6 +995,7 @@ func (w *World) Key() string {
 		sn.State, w.T(), w.S(), sn.Stash, sn.StashTypes, sn.StashNewSeq, sn.ResendEnd, sn.CurResendEnd, sn.SentReset, sn.ToSend,
 		sn.PendingStop, sn.Stopped, sn.OutNil, sn.InNil, sn.MsgEvent, int(sn.HeartBtInt/time.Second), w.ArmS, w.ArmP, w.OutOpen, w.StoredTypes())
 	sb.WriteString(w.timeKey())
+	sb.WriteString(queueKey(sn.Queued, 0, sn.TargetApplVerID))
 	return sb.String()
 }
 
@@ -994,6 +1027,7 @@ func (w *World) RelKey() string {
 		sn.State, T == 1, S == 1, st, sn.StashTypes, ns, rel(sn.ResendEnd), rel(sn.CurResendEnd), sn.SentReset, sn.ToSend,
 		sn.PendingStop, sn.Stopped, sn.OutNil, sn.InNil, sn.MsgEvent, int(sn.HeartBtInt/time.Second), w.ArmS, w.ArmP, w.OutOpen)
 	sb.WriteString(w.timeKey())
+	sb.WriteString(queueKey(sn.Queued, S, sn.TargetApplVerID))
 	keys := make([]int, 0, len(w.store.types))
 	for k := range w.store.types {
 		keys = append(keys, k)
@@ -1005,12 +1039,46 @@ func (w *World) RelKey() string {
 	return sb.String()
 }
 
+// queueKey: what waits in the send queue (type, number — absolute or relative to base — and PossDup of each).
+func queueKey(q [][]byte, base int, appl string) string {
+	if len(q) == 0 && appl == "" {
+		return ""
+	}
+	var sb strings.Builder
+	sb.WriteString("|Q")
+	for _, b := range q {
+		if m, err := fixscan.Scan(b); err == nil {
+			pd, _ := m.Get(43)
+			fmt.Fprintf(&sb, "%s%d%s,", m.Type(), m.Seq()-base, pd)
+		} else {
+			sb.WriteString("?,")
+		}
+	}
+	return sb.String() + "|av" + appl
+}
+
+// resetKey: where the session's "last looked at the clock" mark stands relative to the last crossing of the
+// reset time (never looked / before the crossing / at or after it) — all that CheckResetTime's comparisons see.
+func (w *World) resetKey() string {
+	if !w.Cfg.ResetSeqTime {
+		return ""
+	}
+	lc := w.VS.Snapshot().ResetChecked
+	switch {
+	case lc.IsZero():
+		return "|rcz"
+	case w.ResetDay > 0 && lc.Before(time.Date(2030, 1, w.ResetDay, 12, 0, 0, 0, time.UTC)):
+		return "|rcbehind"
+	}
+	return "|rccur"
+}
+
 func (w *World) timeKey() string {
 	if !w.Cfg.Timed {
 		if w.VS.Snapshot().HBDue {
-			return "|hbdue"
+			return "|hbdue" + w.resetKey()
 		}
-		return ""
+		return w.resetKey()
 	}
 	u := w.TickUnit()
 	rel := func(armed bool, d time.Duration) int {
